@@ -217,3 +217,8 @@ SUBFUNCTION_TABLES = {
 # 0x03 ISO_11992-4_DTCFormat, 0x04 SAE_J2012-DA_DTCFormat_04.
 VALUE_COVERAGE = {"DTCFormatIdentifier": {0x00: "SAE_J2012-DA_DTCFormat_00", 0x01: "ISO_14229-1_DTCFormat", 0x02: "SAE_J1939-73_DTCFormat", 0x03: "ISO_11992-4_DTCFormat",
                                           0x04: "SAE_J2012-DA_DTCFormat_04"}}
+
+
+# Services whose request carries a sub-function byte (bit 7 = suppressPosRspMsgIndicationBit) according to ISO 14229-1, by UDSIsoServices member name
+SUBFUNCTION_SERVICES = {"DiagnosticSessionControl", "EcuReset", "SecurityAccess", "CommunicationControl", "Authentication", "TesterPresent", "AccessTimingParameter",
+                        "ControlDTCSetting", "ResponseOnEvent", "LinkControl", "ReadDTCInformation", "DynamicallyDefineDataIdentifier", "RoutineControl"}
